@@ -14,6 +14,18 @@ CHECKS = {
    technique="TLA+ spec (Limbs/HalNorm/Encoding): relational post-condition model-checked against a constructive reference; TLC-enumerated descriptors with exhaustive digit alphabets replayed on 4 back-ends; trace validated by TLC incl. completeness of the enumeration",
    text="The two-line arithmetic fact (result = source*2^off on the torus within one unit of the last limb, exact when E>=0, balanced digits for equal radices; encode/decode round trip mod 2^k, exact rational decoding) is the TLA+ post-condition. TLC shows it satisfiable/non-vacuous (MC_Norm), enumerates every (op, radix pair, size pair, offset) descriptor for b<=3 (quick, seeded subset) / b<=4 (thorough, all), the harness expands each to every digit tuple including out-of-range digits and TLC validates every coefficient of every call on 4 back-ends and re-derives the enumeration order so completeness is decided by TLC.",
    note="Small-scope exhaustive (b<=4, sizes<=3, N=8); wide radices (up to 62 bits) not yet covered by a BigZ corpus. Known findings (known_findings.json) mask the gap=1, cross-radix-rounding and rsh_assign classes."),
+ "C07": dict(level=MC, design="§2 C07",
+   technique="TLA+ spec (HalDft: DFT-domain objects = the coefficient-domain value they represent) + TLC: identities model-checked, TLC-enumerated shape descriptors replayed on 4 back-ends and compared with TLC's exact integer products; magnitude corpus FFT64 vs exact NTT120",
+   text="HalDft.tla states every DFT-domain operation as exact integer arithmetic in Z[X,Y]/(X^N+1). TLC checks the operator identities (vmp = sum of svp, pairwise identity, offset = limb shift), enumerates every shape/selection/offset/mask descriptor at N=8(16), and validates bit for bit the outcome of each call on the four real back-ends (inputs prepared by the library's own prepare calls, outputs projected through idft). Realistic N (<=65536) and radices inside the FFT64 domain are covered by the magnitude corpus, decided by agreement with the exact NTT120 arithmetic.",
+   note="Exact products recomputed by TLC only for N<=16 and |digit|<=3 (native Int); larger magnitudes rely on FFT64 == NTT120 (an error common to both families at large N would be missed); Rns/closed-form validation of DESIGN §C07 not built yet."),
+ "C10": dict(level=MC, design="§2 C10",
+   technique="TLA+ trace spec HalTrace.BeOK over TLC-generated corpora executed on FFT64Ref/FFT64Avx/NTT120Ref/NTT120Avx in lock-step",
+   text="Every TLC-generated HAL corpus (ring ops N=1..32, exhaustive-digit normalisation/shifts, DFT-domain shapes, magnitude classes up to N=65536) is executed on the four back-ends from identical inputs; the harness logs the set of distinct outcomes with the back-ends that produced each and TLC requires a single outcome per pre-fill (and that it equals the specified post-state where the spec computes one).",
+   note="HAL level only so far (scheme-level pipelines and PRNG-position checks of DESIGN §C10 pending). FFT64 vs NTT120 compared inside Gen_Mag.InDomain (48 bits; disagreement measured from 52). Known finding masks cross-radix big_normalize family rounding."),
+ "C11": dict(level=MC, design="§2 C11",
+   technique="TLA+ trace spec HalTrace.FillOK (result is a function of the inputs only + frame condition) over TLC-generated corpora run twice from independent garbage fills inside canary-guarded windows",
+   text="Each descriptor is executed twice per back-end from two independent garbage fills of every writable byte (result buffer incl. other columns and slack limbs, scratch); the specification's post-state does not mention the pre-state of the result column (except for the accumulate forms where it is an input), so both runs must produce the same specified column and every byte outside it must be unchanged. Column counts 1..3 and target columns vary per descriptor.",
+   note="HAL operations (vec_znx, big, dft, svp, vmp, cnv, normalisation) so far; core-level operations pending. Frame comparison is a byte compare by the harness; equality across fills is decided by TLC."),
 }
 NA_REASON = "check not built yet in this round (planned in DESIGN.md §2); not claimed"
 
